@@ -271,7 +271,14 @@ pub fn check(c: &Case, rec: &mut Rec) -> CheckResult {
         }
         AutSpec::Expr(Expr::Subseq(p)) => {
             rec.class("aut:subsequence");
-            check_search(bytes, pairs, &c.bounds, &fst::automaton::Subsequence::new(p), &what, &|a, b| a == b)?
+            let s = check_search(bytes, pairs, &c.bounds, &fst::automaton::Subsequence::new(p), &what, &|a, b| a == b)?;
+            // the fold oracle uses the automaton's own methods: also compare with the definition
+            let e = Expr::Subseq(p.clone());
+            let want: Pairs = pairs.iter().filter(|(k, _)| oracle::in_bounds(k, &c.bounds) && e.denotes(k)).cloned().collect();
+            let f = Fst::new(&bytes[..]).unwrap();
+            let got = gen::collect_stream(oracle::apply_raw(f.search(fst::automaton::Subsequence::new(p)), &c.bounds));
+            vensure!(got == want, "search-denotation", "search({}){} yields {} but the keys containing the pattern as a subsequence are {}", what, oracle::bounds_show(&c.bounds), oracle::keys_show(&got), oracle::keys_show(&want));
+            s
         }
         AutSpec::Expr(e) => {
             let a = e.build();
